@@ -283,8 +283,93 @@ Definition get_op (code : list Z) (pc : Z) : Z :=
 Definition is_precompile (e : env) (a : Z) : bool :=
   (1 <=? a) && (a <=? (if e_byzantium e then 8 else 4)).
 
-(* contracts.go RequiredGas of the contracts whose price is a simple function of the length;
-   bigModExp's price is taken from the oracle *)
+(* common.go getData(data, start, size uint64) — the uint64 variant the precompiles use.  The
+   wrap of start+size, the slice expression and the allocation of RightPadBytes are explicit:
+   data[start:end] with end < start and make([]byte, l) beyond the allocator's limit are Go panics *)
+Definition maxAlloc : Z := 2 ^ 48.
+Definition getDataU (data : list Z) (start size : Z) : res (list Z) :=
+  let length := blen data in
+  let start1 := if start >? length then length else start in
+  let end0 := wrap64 (start1 + size) in
+  let end1 := if end0 >? length then length else end0 in
+  if end1 <? start1 then Panic
+  else
+    let sl := slice data start1 end1 in
+    let l := to_int64 size in                        (* int(size) *)
+    if l <=? blen sl then Ok sl
+    else if l >? maxAlloc then Panic                 (* makeslice: len out of range *)
+    else Ok (sl ++ repeat 0 (Z.to_nat (l - blen sl))).
+
+(* the three 32-byte length fields of a bigModExp input and the rest of the input *)
+Definition modexp_header (input : list Z) : res (Z * Z * Z * list Z) :=
+  match getDataU input 0 32, getDataU input 32 32, getDataU input 64 32 with
+  | Ok b, Ok e, Ok m => Ok (be_to_Z b, be_to_Z e, be_to_Z m, if blen input >? 96 then skipn 96 input else [])
+  | _, _, _ => Panic
+  end.
+
+(* contracts.go bigModExp.RequiredGas *)
+Definition modexp_gas (input : list Z) : res Z :=
+  match modexp_header input with
+  | Ok (baseLen, expLen, modLen, rest) =>
+      let expHeadR :=
+        if blen rest <=? baseLen then Ok []
+        else if expLen >? 32 then getDataU rest (big_Uint64 baseLen) 32
+        else getDataU rest (big_Uint64 baseLen) (big_Uint64 expLen) in
+      match expHeadR with
+      | Ok eh =>
+          let expHead := be_to_Z eh in
+          let msb := if BitLen expHead >? 0 then BitLen expHead - 1 else 0 in
+          let adjExpLen := (if expLen >? 32 then 8 * (expLen - 32) else 0) + msb in
+          let g := Z.max modLen baseLen in
+          let g1 := if g <=? 64 then g * g
+                    else if g <=? 1024 then g * g / 4 + (96 * g - 3072)
+                    else g * g / 16 + (480 * g - 199680) in
+          let g2 := g1 * Z.max adjExpLen 1 / 20 in
+          Ok (if BitLen g2 >? 64 then maxU64 else big_Uint64 g2)
+      | Err er => Err er
+      | Panic => Panic
+      end
+  | Err er => Err er
+  | Panic => Panic
+  end.
+
+(* x^y mod m by square and multiply over the bits of y (big.Int.Exp with m > 0, y >= 0) *)
+Fixpoint powmod_pos (x : Z) (y : positive) (m : Z) : Z :=
+  match y with
+  | xH => x mod m
+  | xO p => let h := powmod_pos x p m in (h * h) mod m
+  | xI p => let h := powmod_pos x p m in (h * h mod m) * (x mod m) mod m
+  end.
+Definition powmod (x y m : Z) : Z := match y with Zpos p => powmod_pos x p m | _ => 1 mod m end.
+
+(* contracts.go bigModExp.Run: the lengths are truncated to uint64 *)
+Definition modexp_run (input : list Z) : res (list Z) :=
+  match modexp_header input with
+  | Ok (baseLenB, expLenB, modLenB, rest) =>
+      let baseLen := big_Uint64 baseLenB in
+      let expLen := big_Uint64 expLenB in
+      let modLen := big_Uint64 modLenB in
+      if (baseLen =? 0) && (modLen =? 0) then Ok []
+      else
+        match getDataU rest 0 baseLen with
+        | Ok bb =>
+          match getDataU rest baseLen expLen with
+          | Ok eb =>
+            match getDataU rest (wrap64 (baseLen + expLen)) modLen with
+            | Ok mb =>
+                let m := be_to_Z mb in
+                let l := to_int64 modLen in
+                if l >? maxAlloc then Panic
+                else if BitLen m =? 0 then Ok (repeat 0 (Z.to_nat l))
+                else Ok (be_fixedZ (Z.to_nat l) (powmod (be_to_Z bb) (be_to_Z eb) m))
+            | Err er => Err er | Panic => Panic end
+          | Err er => Err er | Panic => Panic end
+        | Err er => Err er | Panic => Panic end
+  | Err er => Err er
+  | Panic => Panic
+  end.
+
+(* contracts.go RequiredGas of the other contracts (a price for an address that is none is taken from the oracle) *)
 Definition precompile_gas (a : Z) (input : list Z) (oracle_gas : Z) : Z :=
   let words := wrap64 (blen input + 31) / 32 in
   if a =? 1 then 3000
@@ -298,8 +383,20 @@ Definition precompile_gas (a : Z) (input : list Z) (oracle_gas : Z) : Z :=
 
 Definition mkout (r : rres) (gas : Z) (w : world) (rd : list Z) (tr : list tentry) : outcome := mk_out r gas w rd tr 0.
 
-(* contracts.go RunPrecompiledContract *)
+(* contracts.go RunPrecompiledContract.  bigModExp (5) and dataCopy (4) are modelled completely; the
+   outputs of the others come from the oracle *)
 Definition run_precompile (e : env) (w : world) (a : Z) (input : list Z) (gas : Z) (rd : list Z) (tr : list tentry) : outcome :=
+  if a =? 5 then
+    match modexp_gas input with
+    | Ok need =>
+        if gas <? need then mkout (R_err (IE_op ErrOutOfGas) []) gas w rd tr
+        else match modexp_run input with
+             | Ok out => mkout (R_ok out) (gas - need) w rd tr
+             | _ => mkout R_panic (gas - need) w rd tr
+             end
+    | _ => mkout R_panic gas w rd tr
+    end
+  else
   match e_precomp e a input with
   | None => mkout (R_err IE_OracleMissing []) gas w rd tr
   | Some (og, result) =>
